@@ -173,6 +173,42 @@ pub fn uri_templates() -> Vec<(String, Vec<Tpl>)> {
         .collect()
 }
 
+/// Messages a client may send that the typed handlers have no place for: notifications whose
+/// parameters do not deserialise (values out of range, wrong types, missing fields), notifications
+/// and requests of methods the server does not implement, watched-file events for non-file URIs
+/// of existing paths, a file name that is not UTF-8.
+pub fn odd_templates() -> Vec<Tpl> {
+    let n = |name: &str, method: &'static str, params: Value| Tpl::Notif { name: name.into(), method, params };
+    let r = |name: &str, method: &'static str, params: Value| Tpl::Req { name: name.into(), method, params };
+    let d = ws_dir();
+    let chg = |line: Value, ch: Value| json!({"textDocument": {"uri": uri("d1"), "version": 2}, "contentChanges": [{"range": {"start": {"line": line, "character": ch}, "end": {"line": 0, "character": 0}}, "text": "X"}]});
+    vec![
+        n("odd-change-line-2pow32", "textDocument/didChange", chg(json!(4294967296u64), json!(0))),
+        n("odd-change-character-negative", "textDocument/didChange", chg(json!(0), json!(-1))),
+        n("odd-change-line-string", "textDocument/didChange", chg(json!("0"), json!(0))),
+        n("odd-change-no-params", "textDocument/didChange", Value::Null),
+        n("odd-change-changes-not-a-list", "textDocument/didChange", json!({"textDocument": {"uri": uri("d1"), "version": 2}, "contentChanges": {"text": "x"}})),
+        n("odd-close-not-a-uri", "textDocument/didClose", json!({"textDocument": {"uri": "not a uri"}})),
+        n("odd-open-no-text", "textDocument/didOpen", json!({"textDocument": {"uri": uri("d2"), "languageId": "gleam", "version": 1}})),
+        n("odd-save-empty-params", "textDocument/didSave", json!({})),
+        n("odd-watch-type-9", "workspace/didChangeWatchedFiles", json!({"changes": [{"uri": uri("d2"), "type": "created"}]})),
+        n("odd-watch-untitled-existing-path", "workspace/didChangeWatchedFiles", json!({"changes": [{"uri": format!("untitled:{d}/d2.gleam"), "type": 2}]})),
+        n("odd-watch-http-existing-path", "workspace/didChangeWatchedFiles", json!({"changes": [{"uri": format!("http://example.com{d}/d2.gleam"), "type": 1}]})),
+        n("odd-open-non-utf8-file-name", "textDocument/didOpen", json!({"textDocument": {"uri": format!("file://{d}/proj/src/%FF.gleam"), "languageId": "gleam", "version": 1, "text": "pub fn f() { 1 }\n"}})),
+        n("odd-configuration-garbage", "workspace/didChangeConfiguration", json!([1, 2])),
+        n("odd-will-save", "textDocument/willSave", json!({"textDocument": {"uri": uri("d1")}, "reason": 1})),
+        n("odd-workspace-folders", "workspace/didChangeWorkspaceFolders", json!({"event": {"added": [], "removed": []}})),
+        n("odd-unknown-notification", "glas/noSuchNotification", json!({"x": 1})),
+        n("odd-dollar-notification", "$/setTrace", json!({"value": "off"})),
+        n("odd-cancel-unknown-request", "$/cancelRequest", json!({"id": 4242})),
+        r("odd-hover-line-negative", "textDocument/hover", json!({"textDocument": {"uri": uri("d1")}, "position": {"line": -1, "character": 0}})),
+        r("odd-hover-no-params", "textDocument/hover", Value::Null),
+        r("odd-rename-name-number", "textDocument/rename", json!({"textDocument": {"uri": uri("d1")}, "position": pos(0, 8), "newName": 7})),
+        r("odd-will-save-wait-until", "textDocument/willSaveWaitUntil", json!({"textDocument": {"uri": uri("d1")}, "reason": 1})),
+        r("odd-dollar-request", "$/unknownRequest", json!({})),
+    ]
+}
+
 // ------------------------------------------------------------------ reference model
 
 #[derive(Clone, Debug, PartialEq)]
@@ -224,6 +260,16 @@ fn apply_allowed(t: &str, change: &Value) -> BTreeSet<Option<String>> {
 
 pub fn model_step(docs: &mut BTreeMap<String, DocState>, t: &Tpl) {
     let Tpl::Notif { method, params, .. } = t else { return };
+    if t.name().starts_with("odd-") {
+        // a notification the server cannot read or has no handler for changes no document; the
+        // document it names (if it names one) may at most be forgotten
+        if let Some(u) = params.get("textDocument").and_then(|d| d.get("uri")).and_then(|u| u.as_str()) {
+            if let Some(DocState::Possible(set)) = docs.get_mut(u) {
+                set.insert(None);
+            }
+        }
+        return;
+    }
     match *method {
         "textDocument/didOpen" => {
             let u = params["textDocument"]["uri"].as_str().unwrap_or("").to_string();
@@ -567,7 +613,11 @@ pub fn run_seq_inproc(seq: &[Tpl]) -> SeqResult {
     for t in seq {
         match t {
             Tpl::Notif { name, method, params } => match srv.notify(method, params.clone()) {
-                Ok(_) => {}
+                Ok(true) => {}
+                Ok(false) => {
+                    problems.push(("server-died".into(), format!("the handler of {name} ended the main loop (the router answered with a break)")));
+                    return SeqResult { problems, responses };
+                }
                 Err(m) => {
                     problems.push(("server-died".into(), format!("handler of {name} panicked on the main loop: {}", crate::core::panic_class(&m))));
                     return SeqResult { problems, responses };
@@ -787,6 +837,69 @@ pub fn run(tier: Tier) -> i32 {
             rep.layer(l);
         }
     }
+    // odd messages: every one alone, every ordered pair of them, and each before / after three
+    // ordinary messages (an edit, a request, an open) - on both seams
+    {
+        let dirp = format!("{}/proj", ws_dir());
+        let _ = std::fs::create_dir_all(format!("{dirp}/src"));
+        let _ = std::fs::write(format!("{dirp}/gleam.toml"), "name = \"proj\"\nversion = \"1.0.0\"\n");
+        let _ = std::fs::write(format!("{dirp}/src/ok.gleam"), "pub fn ok() { 1 }\n");
+        let odd = odd_templates();
+        let ordinary: Vec<Tpl> = tpls.iter().filter(|t| matches!(t.name(), "change-d1-valid" | "hover-d1-valid" | "open-d2")).cloned().collect();
+        let mut flat: Vec<Tpl> = odd.clone();
+        flat.extend(ordinary.iter().cloned());
+        let no = odd.len();
+        let mut seqs: Vec<Vec<usize>> = vec![];
+        for i in 0..no {
+            seqs.push(vec![i]);
+            for j in 0..flat.len() {
+                seqs.push(vec![i, j]);
+                if j >= no {
+                    seqs.push(vec![j, i]);
+                }
+            }
+        }
+        for binary in [true, false] {
+            let res: Vec<(usize, SeqResult)> = seqs
+                .par_iter()
+                .enumerate()
+                .map(|(i, sq)| {
+                    let ts: Vec<Tpl> = sq.iter().map(|&j| flat[j].clone()).collect();
+                    (i, if binary { run_seq_binary(&ts) } else { run_seq_inproc(&ts) })
+                })
+                .collect();
+            let mut l = Layer { name: format!("odd-messages-{}", if binary { "binary" } else { "inproc" }), states: seqs.len() as u64, exhaustive: true, ..Default::default() };
+            let mut seen: BTreeSet<String> = BTreeSet::new();
+            // shortest sequences first: a message that is fatal alone is reported alone
+            let mut order: Vec<usize> = (0..res.len()).collect();
+            order.sort_by_key(|&k| seqs[res[k].0].len());
+            let mut fatal_alone: BTreeSet<usize> = BTreeSet::new();
+            for k in order {
+                let (i, r) = &res[k];
+                l.executions += 1;
+                l.transitions += seqs[*i].len() as u64 + r.responses as u64;
+                for (class, detail) in &r.problems {
+                    if class == "machinery" {
+                        rep.machinery(detail.clone());
+                        continue;
+                    }
+                    uri_classes.insert(class.clone());
+                    if seqs[*i].len() == 1 {
+                        fatal_alone.insert(seqs[*i][0]);
+                    } else if seqs[*i].iter().any(|j| fatal_alone.contains(j)) {
+                        continue;
+                    }
+                    let names: Vec<String> = seqs[*i].iter().map(|&j| flat[j].name().to_string()).collect();
+                    let key = format!("odd-message|{class}|{}", names.join(">"));
+                    if seen.insert(key.clone()) {
+                        rep.violation(Violation { class: class.clone(), key, witness: json!({"seam": if binary { "binary" } else { "inproc" }, "odd_sequence": names}), detail: format!("[{}] after the prologue, sequence {names:?}: {detail}", if binary { "real binary" } else { "in-process router" }) });
+                    }
+                }
+            }
+            l.bound = format!("{} odd messages (notifications with parameters that do not deserialise - out-of-range, negative, wrongly typed, missing -, methods the server does not implement as notification and as request, `$/` messages, watched-file events for non-file URIs of existing paths, a file name that is not UTF-8): each alone, every ordered pair of them, and each before and after an ordinary edit / request / open; canary and shutdown follow", no);
+            rep.layer(l);
+        }
+    }
     // settings replies of every JSON shape, from a client that supports workspace/configuration
     {
         let shapes: Vec<Value> = vec![
@@ -882,8 +995,13 @@ pub fn replay(w: &Value) -> Vec<String> {
     for (_, g) in uri_templates() {
         tpls.extend(g);
     }
+    tpls.extend(odd_templates());
     let mut ts = vec![];
-    for n in w["sequence"].as_array().cloned().unwrap_or_default() {
+    let dirp = format!("{}/proj", ws_dir());
+    let _ = std::fs::create_dir_all(format!("{dirp}/src"));
+    let _ = std::fs::write(format!("{dirp}/gleam.toml"), "name = \"proj\"\nversion = \"1.0.0\"\n");
+    let names = if w.get("odd_sequence").is_some() { &w["odd_sequence"] } else { &w["sequence"] };
+    for n in names.as_array().cloned().unwrap_or_default() {
         let Some(t) = tpls.iter().find(|t| Some(t.name()) == n.as_str()) else { return vec![format!("unknown template {n}")] };
         ts.push(t.clone());
     }
